@@ -1,15 +1,13 @@
 #!/usr/bin/env python3
 """Run checks against a scratch copy of /repo with a change applied (copy removed afterwards).
-usage: mutcheck.py (--sub FILE OLD NEW | --patch PATCHFILE) -- PID [PID...]"""
+usage: mutcheck.py (--sub FILE OLD NEW | --patch PATCHFILE | --revert COMMIT) -- PID [PID...]"""
 import os, shutil, subprocess, sys, tempfile
 
 def main():
     args = sys.argv[1:]
     i = args.index("--")
     spec, pids = args[:i], args[i + 1:]
-    base = "/verif/.scratch"
-    os.makedirs(base, exist_ok=True)
-    d = tempfile.mkdtemp(prefix="mut_", dir=base)
+    d = tempfile.mkdtemp(prefix="xyzmut_")      # scratch copies live outside /repo and /verif and are removed below
     try:
         subprocess.run(["git", "-C", "/repo", "worktree", "list"], capture_output=True)
         shutil.copytree("/repo", os.path.join(d, "repo"), ignore=shutil.ignore_patterns(".git", "__pycache__", "docs"))
@@ -19,6 +17,11 @@ def main():
             s = open(p).read()
             assert spec[2] in s, "pattern not found"
             open(p, "w").write(s.replace(spec[2], spec[3], 1))
+        elif spec[0] == "--revert":
+            diff = subprocess.run(["git", "-C", "/repo", "show", spec[1], "--", "xyzpy"], capture_output=True, text=True).stdout
+            r = subprocess.run(["patch", "-R", "-p1", "-d", root], input=diff, capture_output=True, text=True)
+            if r.returncode:
+                print(r.stdout, r.stderr); return 3
         else:
             r = subprocess.run(["patch", "-p1", "-d", root, "-i", os.path.abspath(spec[1])], capture_output=True, text=True)
             if r.returncode:
